@@ -128,7 +128,8 @@ namespace OP2Utility::XFile
 		return DirInternal(
 			directory,
 			[&filenameRegex](const std::string& filename) {
-				return std::regex_search(filename, filenameRegex);
+				// Match the file name only: the directory part of the path is not part of the name being filtered
+				return std::regex_search(GetFilename(filename), filenameRegex);
 			}
 		);
 	}
@@ -158,7 +159,8 @@ namespace OP2Utility::XFile
 		return DirInternal(
 			directory,
 			[&filenameRegex](const std::string& filename) {
-				return std::regex_search(filename, filenameRegex) && IsFile(filename);
+				// Match the file name only: the directory part of the path is not part of the name being filtered
+				return std::regex_search(GetFilename(filename), filenameRegex) && IsFile(filename);
 			}
 		);
 	}
